@@ -27,7 +27,7 @@ def routes_block(n):
     return ' '.join(f'route 10.{100 + i // 250}.{i % 250}.0/24 next-hop 1.1.1.1;' for i in range(n))
 
 
-def establish(w, env, upto='ESTABLISHED', send_open=True, send_ka=True, max_steps=12):
+def establish(w, env, upto='ESTABLISHED', send_open=True, send_ka=True, max_steps=12, ka_delay=0.0):
     for i in range(max_steps):
         env.step = i
         a = env.default_action()
@@ -35,6 +35,9 @@ def establish(w, env, upto='ESTABLISHED', send_open=True, send_ka=True, max_step
             return
         if a.startswith('keepalive') and not send_ka:
             return
+        if a.startswith('keepalive') and ka_delay:
+            # the peer takes its (legal) time before confirming our OPEN
+            w.advance(ka_delay)
         if a == 'time' and env.fsm() == upto:
             return
         env.do(a)
@@ -54,9 +57,13 @@ def run_vector(args):
             establish(w, env, send_open=False)
         elif scenario == 'no-keepalive':
             establish(w, env, send_ka=False)
+        elif scenario.startswith('slow-ka'):
+            establish(w, env, ka_delay=float(scenario.split(':')[1]))
         else:
             establish(w, env)
         s = env.current()
+        if s is None or env.fsm() != 'ESTABLISHED' and scenario not in ('no-open', 'no-keepalive'):
+            raise core.HarnessError(f'session not established for {scenario}: {env.fsm()}')
         t0 = w.clock.now
         arrivals = []
         sends = dict()
@@ -190,6 +197,8 @@ def plan(tier):
             (9, 9, 0.5, 200, 'est', 2),
             (30, 30, 0.5, 0, 'est', 1),
         ]
+    # the confirming KEEPALIVE arrives late (but inside the hold time): the hold timer must restart from it
+    p += [(9, 9, 0.05, 0, 'slow-ka:4.5', 1), (9, 9, 0.05, 0, 'slow-ka:7.5', 2 if tier == 'quick' else 3), (3, 9, 0.05, 0, 'slow-ka:2.5', 2), (9, 9, 0.95, 0, 'slow-ka:8.5', 1)]
     p += [(9, 9, 0.05, 0, 'no-open', 0), (9, 9, 0.05, 0, 'no-keepalive', 0), (3, 3, 0.05, 0, 'no-keepalive', 0)]
     return p
 
@@ -210,7 +219,7 @@ def run(ctx: core.Ctx) -> None:
             horizon = 3 * max(H, 3) + 5
             params = (ours, theirs, phase, nroutes, scenario)
             vecs = list(vectors(horizon, k))
-            if scenario == 'est' and k >= 1:
+            if (scenario == 'est' or scenario.startswith('slow-ka')) and k >= 1:
                 vecs += [((sec, 'B'),) for sec in range(horizon)]
             if ctx.elapsed() > budget:
                 ctx.cap(f'{params} k={k}: {len(vecs)} vectors not run (time budget)')
